@@ -4,7 +4,7 @@ func init() {
 	register(&PropDef{
 		ID:    "C16",
 		Title: "Ending a session by any path releases everything it held",
-		Pkgs:  []string{"./pkg/dhcp", "./pkg/ebpf", "./pkg/pppoe", "./pkg/subscriber"},
+		Pkgs:  []string{"./pkg/dhcp", "./pkg/ebpf", "./pkg/pppoe", "./pkg/subscriber", "./pkg/qos", "./pkg/radius"},
 		Funcs: []string{
 			// DHCPv4
 			"dhcp.Server.releaseLease", "dhcp.Server.handleRelease", "dhcp.Server.handleDecline", "dhcp.Server.cleanupExpiredLeases",
@@ -22,6 +22,8 @@ func init() {
 			// subscriber.Manager: administrative / RADIUS disconnect, session and idle timeout
 			"subscriber.Manager.TerminateSession", "subscriber.Manager.cleanupExpiredSessions", "subscriber.Manager.emitEvent",
 			"subscriber.Manager.CreateSession", "subscriber.NewManager", "subscriber.Manager.AssignAddress",
+			// the removers of the fast-path and QoS kernel maps: one Delete per loaded map, whatever the key
+			"ebpf.Loader.RemoveSubscriber", "ebpf.Loader.RemoveCircuitIDSubscriber", "ebpf.Loader.RemoveCircuitIDMapping", "ebpf.Loader.RemoveVLANSubscriber", "qos.Manager.RemoveSubscriberQoS",
 		},
 		Trusted: []string{
 			"ebpf.Loader.RemoveSubscriber / RemoveVLANSubscriber / RemoveCircuitIDSubscriber / RemoveCircuitIDMapping, qos.Manager.RemoveSubscriberQoS: trusted frames (write kernel maps / their own tables only); each call is observed by the caller through a ghost counter",
